@@ -408,9 +408,7 @@ def fixup_ast_from_modifications(transformed_ast: ast.AST, original_ast: ast.Cal
                 return node
 
             self._update_copy()
-            n_old_args = len(orig_ast.args)
-            for a in node.args[n_old_args:]:
-                orig_ast.args.append(a)
+            orig_ast.args = list(node.args)
             orig_ast.keywords = node.keywords
             orig_ast.func = node.func
 
@@ -712,6 +710,8 @@ def remap_by_types(
                 best_result.node = self.process_method_callbacks(
                     best_result.obj_info.obj_type, best_result.node, best_result.obj_info.method
                 )
+                if best_result.node is not node and not hasattr(best_result.node, "_old_ast"):
+                    best_result.node._old_ast = node  # type: ignore
 
             # We'll pick off the first one in this case.
             r_node, return_annotation = best_result.node, best_result.return_type
@@ -735,6 +735,8 @@ def remap_by_types(
                     r_stream, r_node = func_info.processor_function(self.stream, r_node)
                     assert isinstance(r_node, ast.AST)
                     self._stream = r_stream
+                    if r_node is not node and not hasattr(r_node, "_old_ast"):
+                        r_node._old_ast = node  # type: ignore
 
                 # And if we have a return annotation, then we should record it!
                 # We do it this late because we might be changing the `r_node`
